@@ -587,17 +587,17 @@ namespace ExpectCalc
 open GoblVerif.Generated.Calc
 
 theorem calls_Invoice_Invert_as_modelled : calls_Invoice_Invert =
-    ["New", "Invert", "Invert", "Invert", "invertAmountPtr", "Invert", "invertAmountPtr", "invertAmountPtr", "Invert", "invertAmountPtr", "Invert", "invertAmountPtr", "Invert", "invertAmountPtr", "Calculate", "Equals", "Errorf", "String", "String"] := rfl
+    ["New", "Invert", "Invert", "Invert", "invertAmountPtr", "Invert", "invertAmountPtr", "invertAmountPtr", "Invert", "invertAmountPtr", "Invert", "invertAmountPtr", "Invert", "invertAmountPtr", "Calculate", "New", "Equals", "Errorf", "String", "String"] := rfl
 theorem conds_Invoice_Invert_as_modelled : conds_Invoice_Invert =
-    ["inv.Totals == nil", "inv.Payment != nil", "rnd := invertAmountPtr(inv.Totals.Rounding); rnd != nil", "err := inv.Calculate(); err != nil", "!payable.Equals(inv.Totals.Payable)"] := rfl
+    ["inv.Totals == nil", "inv.Payment != nil", "rnd := invertAmountPtr(inv.Totals.Rounding); rnd != nil", "err := inv.Calculate(); err != nil", "inv.Totals == nil", "!payable.Equals(inv.Totals.Payable)"] := rfl
 theorem stmts_Invoice_Invert_as_modelled : stmts_Invoice_Invert =
-    ["return errors.New(\"cannot invert an invoice without totals\")", "payable := inv.Totals.Payable.Invert()", "row.Quantity = row.Quantity.Invert()", "d.Amount = d.Amount.Invert()", "d.Base = invertAmountPtr(d.Base)", "c.Amount = c.Amount.Invert()", "c.Base = invertAmountPtr(c.Base)", "c.Quantity = invertAmountPtr(c.Quantity)", "row.Amount = row.Amount.Invert()", "row.Base = invertAmountPtr(row.Base)", "row.Amount = row.Amount.Invert()", "row.Base = invertAmountPtr(row.Base)", "row.Amount = row.Amount.Invert()", "rnd := invertAmountPtr(inv.Totals.Rounding)", "inv.Totals = &Totals{Rounding: rnd}", "inv.Totals = nil", "err := inv.Calculate()", "return err", "return fmt.Errorf(\"inverted invoice totals do not match %s != %s\", payable.String(), inv.Totals.Payable.String())", "return nil"] := rfl
+    ["return errors.New(\"cannot invert an invoice without totals\")", "payable := inv.Totals.Payable.Invert()", "row.Quantity = row.Quantity.Invert()", "d.Amount = d.Amount.Invert()", "d.Base = invertAmountPtr(d.Base)", "c.Amount = c.Amount.Invert()", "c.Base = invertAmountPtr(c.Base)", "c.Quantity = invertAmountPtr(c.Quantity)", "row.Amount = row.Amount.Invert()", "row.Base = invertAmountPtr(row.Base)", "row.Amount = row.Amount.Invert()", "row.Base = invertAmountPtr(row.Base)", "row.Amount = row.Amount.Invert()", "rnd := invertAmountPtr(inv.Totals.Rounding)", "inv.Totals = &Totals{Rounding: rnd}", "inv.Totals = nil", "err := inv.Calculate()", "return err", "return errors.New(\"cannot invert an invoice without lines, discounts or charges\")", "return fmt.Errorf(\"inverted invoice totals do not match %s != %s\", payable.String(), inv.Totals.Payable.String())", "return nil"] := rfl
 theorem calls_removeIncludedTaxes_as_modelled : calls_removeIncludedTaxes =
     ["canRemoveIncludedTaxes", "getTax", "getTotals", "calculate", "getTotals", "getTotals", "setTotals", "new", "getLines", "getLines", "removeLineIncludedTaxes", "getDiscounts", "len", "removeIncludedTaxes", "getCharges", "len", "removeIncludedTaxes", "getTax", "calculate", "getTotals", "Equals", "Subtract", "calculate"] := rfl
 theorem conds_removeIncludedTaxes_as_modelled : conds_removeIncludedTaxes =
-    ["!canRemoveIncludedTaxes(doc)", "doc.getTotals() == nil", "err := calculate(doc); err != nil", "doc.getTotals() == nil", "len(discounts) > 0", "len(charges) > 0", "err := calculate(doc); err != nil", "!totalWithTax.Equals(t.TotalWithTax)", "err := calculate(doc); err != nil"] := rfl
+    ["!canRemoveIncludedTaxes(doc)", "doc.getTotals() == nil", "err := calculate(doc); err != nil", "doc.getTotals() == nil", "len(discounts) > 0", "len(charges) > 0", "err := calculate(doc); err != nil", "t == nil", "!totalWithTax.Equals(t.TotalWithTax)", "err := calculate(doc); err != nil"] := rfl
 theorem stmts_removeIncludedTaxes_as_modelled : stmts_removeIncludedTaxes =
-    ["return nil", "tpi := doc.getTax().PricesInclude", "err := calculate(doc)", "return err", "return nil", "totalWithTax := doc.getTotals().TotalWithTax", "lines := doc.getLines()", "lines[i] = removeLineIncludedTaxes(l, tpi)", "discounts := doc.getDiscounts()", "discounts[i] = l.removeIncludedTaxes(tpi)", "charges := doc.getCharges()", "charges[i] = l.removeIncludedTaxes(tpi)", "tx := doc.getTax()", "tx.PricesInclude = \"\"", "err := calculate(doc)", "return err", "t := doc.getTotals()", "rnd := totalWithTax.Subtract(t.TotalWithTax)", "t.Rounding = &rnd", "err := calculate(doc)", "return err", "return nil"] := rfl
+    ["return nil", "tpi := doc.getTax().PricesInclude", "err := calculate(doc)", "return err", "return nil", "totalWithTax := doc.getTotals().TotalWithTax", "lines := doc.getLines()", "lines[i] = removeLineIncludedTaxes(l, tpi)", "discounts := doc.getDiscounts()", "discounts[i] = l.removeIncludedTaxes(tpi)", "charges := doc.getCharges()", "charges[i] = l.removeIncludedTaxes(tpi)", "tx := doc.getTax()", "tx.PricesInclude = \"\"", "err := calculate(doc)", "return err", "t := doc.getTotals()", "return nil", "rnd := totalWithTax.Subtract(t.TotalWithTax)", "t.Rounding = &rnd", "err := calculate(doc)", "return err", "return nil"] := rfl
 theorem calls_Discount_removeIncludedTaxes_as_modelled : calls_Discount_removeIncludedTaxes =
     ["Get", "Remove", "Upscale"] := rfl
 theorem conds_Discount_removeIncludedTaxes_as_modelled : conds_Discount_removeIncludedTaxes =
